@@ -20,7 +20,7 @@ EmptyTree == [x \in {} |-> << >>]
 
 TraceInit ==
   /\ l = 1 /\ gated = FALSE
-  /\ InitWith(EmptyTree, "none", EmptyTree, EmptyTree, [kids |-> EmptyTree, out |-> EmptyTree, root |-> EmptyTree])
+  /\ InitWith(EmptyTree, "none", EmptyTree, EmptyTree, [kids |-> EmptyTree, out |-> EmptyTree, root |-> EmptyTree], EmptyTree)
 
 TReset ==
   /\ Ev("Reset")
@@ -34,8 +34,20 @@ TReset ==
   /\ errSeen' = FALSE /\ anyErr' = FALSE
   /\ pkids' = Line.pkids /\ pout' = Line.pout /\ proot' = Line.proot
   /\ opLog' = [s \in DOMAIN Line.children |-> << >>] /\ failedSt' = {} /\ lateOp' = FALSE
+  /\ npanic' = [s \in DOMAIN Line.children |->
+                  IF "npanic" \in DOMAIN Line /\ s \in DOMAIN Line.npanic THEN Line.npanic[s] ELSE -1]
+  /\ finTwice' = FALSE
 
-TRegister == Ev("Register") /\ \E t \in Thread : Has(t, "reg") /\ Top(t).s = Line.s /\ Register(t)
+TRegister == Ev("Register") /\ \E t \in Thread : Has(t, "reg") /\ Top(t).s = Line.s /\ ~IdentPanics(Line.s) /\ Register(t)
+\* a panic inside the complete-callback of stage s: NextStages() itself (k = 0, nothing registered yet) or the
+\* Identifier() of its k-th next stage inside stateMachine.executeStage (the next stages before it are registered)
+TNextPanic ==
+  /\ Ev("NextPanic")
+  /\ npanic[Line.s] = Line.k
+  /\ IF Line.k = 0
+       THEN \E t \in Thread : NextPanics(t) /\ Top(t).s = Line.s /\ Next1(t)
+       ELSE \E t \in Thread : /\ Has(t, "reg") /\ IdentPanics(Top(t).s) /\ ParentOf(Top(t).s) = Line.s
+                               /\ Top(t).s = children[Line.s][Line.k] /\ Register(t)
 \* an operator of the plan tree of stage s ran: it must be the next one of the walk (pre-order, nothing after a failure)
 TOp       == Ev("Op") /\ Line.outcome # "none" /\ \E t \in Thread : Has(t, "op") /\ Top(t).s = Line.s /\ Top(t).n = Line.node
                                              /\ pout[Line.node] = Line.outcome /\ OpRun(t)
@@ -60,7 +72,7 @@ TQuiesce  == Ev("Quiesce") /\ Quiescent /\ cbCount = 1 /\ Line.calls = 1 /\ UNCH
 
 \* steps the harness cannot observe
 Silent == /\ l <= Len(Trace)
-          /\ \/ \E t \in Thread : Chk(t) \/ Next1(t) \/ (Plan(t) /\ outcome[Top(t).s] # "planpanic")
+          /\ \/ \E t \in Thread : Chk(t) \/ (Next1(t) /\ ~NextPanics(t)) \/ (Plan(t) /\ outcome[Top(t).s] # "planpanic")
                                    \* pending.Dec(); complete() of an already completed pipeline
                                    \/ FinDec(t) \/ (FinComplete(t) /\ cbCount' = cbCount)
                                    \* the unlock is an event of gated runs only
@@ -73,7 +85,7 @@ Silent == /\ l <= Len(Trace)
              \/ (MainComplete /\ cbCount' = cbCount)
           /\ UNCHANGED <<l, gated>>
 
-TraceNext == TReset \/ TRegister \/ TOp \/ TPlanPanic \/ TFinMark \/ TUnlocked \/ TCallback \/ TFinEnd \/ TMainRet \/ TQuiesce \/ Silent
+TraceNext == TReset \/ TRegister \/ TNextPanic \/ TOp \/ TPlanPanic \/ TFinMark \/ TUnlocked \/ TCallback \/ TFinEnd \/ TMainRet \/ TQuiesce \/ Silent
 
 TraceSpec == TraceInit /\ [][TraceNext]_tvars
 
